@@ -13,7 +13,7 @@ func VPH_treeTotal() {
 	vp_Assert(err == nil && tree != nil, "ParseTree accepts any bytes")
 	vp_Assert(uint64(tree.Size()) == uint64(n), "Size=len(data)")
 	it := tree.Iter()
-	remaining := n
+	off := 0 // bytes accounted for by the entries returned so far (the iterator's own state is not inspected)
 	steps := 0
 	for {
 		var e TreeEntry
@@ -23,14 +23,21 @@ func VPH_treeTotal() {
 		vp_Assert(!panicked, "NextEntry never panics")
 		if panicked || err != nil || !ok {
 			if err == nil && !panicked {
-				vp_Assert(len(it.data) == 0, "ok=false without error only at the end of the data")
+				vp_Assert(off == n, "ok=false without error only at the end of the data")
 			}
 			break
 		}
-		consumed := remaining - len(it.data)
+		ml := vpModeLen(data[off:])
+		consumed := ml + 1 + len(e.Name) + 1 + 20
 		vp_Assert(consumed >= 23, "a successful step consumes at least 23 bytes")
-		vp_Assert(consumed == 22+len(e.Name)+vpModeLen(data[n-remaining:]), "consumed = mode SP name NUL id")
-		remaining = len(it.data)
+		vp_Assert(off+consumed <= n, "the entry lies inside the buffer")
+		if off+consumed > n {
+			break
+		}
+		vp_Assert(string(data[off+ml+1:off+ml+1+len(e.Name)]) == e.Name && data[off+ml+1+len(e.Name)] == 0, "the name is the bytes between SP and NUL")
+		id, _ := OIDFromBytes(data[off+consumed-20 : off+consumed])
+		vp_Assert(e.OID == id, "the id is the 20 bytes after the NUL")
+		off += consumed
 		steps++
 		vp_Assert(steps <= n/23, "terminates")
 	}
